@@ -117,6 +117,19 @@ CHECKS.update({
         technique="Lean 4 proof (inductive invariants over an unbounded-thread transition system) + gated-schedule logs judged by the Lean specification"),
 })
 
+CHECKS.update({
+    "C09": dict(
+        category="proof",
+        text="Partial. Lean 4 model of the configuration reader (reader.go: include stack of at most ten frames, line bookkeeping, continuation lines, comment skipping, include lookup, pos.wrapErr) with the clause parsers as a parameter; theorems reader_terminates (potential function, every include graph), fuel_mono, wrapErr_in_range, pos_exists, invalid_clause_pos, reject_reported, depth_le_ten, depth_refused, edit_check_total. The real loader and the model run on the same scratch trees (grammar-derived texts, 16 mutation operators, arbitrary bytes, 13 kinds of include graphs): verdict, file:line, context window and include chain are compared; on every real outcome: no panic, no hang, position exists and is the first line of the rejected clause, the blamed clause is rejected when parsed alone.",
+        note="Partial: the regexp-driven clause parsers and govaluate are not modelled (generated testing only, labelled so in the evidence); reader_terminates assumes a bound on file lengths. Known finding: the include chain names the line after each include directive (enshrined by testdata/parse/include).",
+        technique="Lean 4 proof (reader transition system, potential function) + differential execution against the real loader"),
+    "C20": dict(
+        category="proof",
+        text="Partial. Lean 4 model of preprocReplace (~name~ scanner), of the parameter table (-D, defaults) and of include lookup; theorems subst_exact (unique decomposition into copied bytes and occurrences), no_rescan, undefined_named, undefined_kept, table_lookup, define_wins, first_wins, first_default_wins, include_first_hit, local_dir_searched, depth_refused. preprocReplace vs model and vs the Lean specification on random bytes; generated configurations with ~p~ in every kind of field (13 substituted, 17 verbatim) x seven ways of defining the parameter x value palettes, printed configuration compared line by line; include graphs against the reader model and against the documented lookup rule evaluated on the tree.",
+        note="Partial: which fields of which clause pass through the substitution is decided by the unmodelled clause parsers; that part rests on the correspondence only.",
+        technique="Lean 4 proof (scanner decomposition, table lookup, include search) + differential execution against the real preprocessor and loader"),
+})
+
 NOT_APPLICABLE = [
     {"property_id": "C14", "reason": "data-race freedom is a property of memory accesses under the Go memory model; no executable Lean model compared on values can exhibit an unsynchronised access (DESIGN.md 5/C14)"},
 ]
